@@ -669,7 +669,7 @@ theorem step_out (cfg : Cfg) (s : St) (op : Op) (hp : ∀ inp parse, op = .recv 
   | setRespTimeout ms => exact ⟨.inl rfl, .keep rfl⟩
   | acquire => exact ⟨.inl rfl, .keep rfl⟩
   | register id => exact ⟨.inl rfl, .keep rfl⟩
-  | release id => exact ⟨.inl (ver_of_K (k_releaseIfUsed _ id)), .of_K (k_releaseIfUsed _ id)⟩
+  | release id => exact ⟨.inl (ver_of_K (k_releasePacketId _ id)), .of_K (k_releasePacketId _ id)⟩
   | erase id => exact ⟨.inl (ver_of_K (k_eraseStoredPublish _ id)), .of_K (k_eraseStoredPublish _ id)⟩
   | restoreHandled ids => exact ⟨.inl rfl, .keep rfl⟩
   | restorePackets ps => exact ⟨.inl (ver_of_K (k_restorePackets ps _)), .of_K (k_restorePackets ps _)⟩
